@@ -491,6 +491,19 @@ def check(run):
             c = gen_until(r, comp, generic=generic)
             if c is not None:
                 tie_cases.append([c])
+    # the same components with the atoms selected through the other keywords (several atomNumbers lines, indexGroup,
+    # atomNumbersRange, atomsOfGroup): the group is the first-occurrence de-duplication of the selections in parse order
+    sdirs = os.path.join(V.BUILD, "scratch", "C02sel"); os.makedirs(sdirs, exist_ok=True)
+    nsel = 0
+    for comp in G.MODELLED:
+        for k in range(4 * scale):
+            c = gen_until(r, comp, generic=(k % 2 == 1), dup=0.2)
+            if c is None or not G.respell(r, c, sdirs, "sel%d" % nsel):
+                continue
+            nsel += 1
+            if well_conditioned(c) and (comp not in DISJOINT or not (set(G.dedup(c["groups"][0])) & set(G.dedup(c["groups"][-1])))):
+                c["selection"] = 1
+                tie_cases.append([c])
     # components built on the optimal rotation: the driver finds q with its own Jacobi iteration, the model maps q to the value
     for comp in G.MODELLED_REF:
         for k in range(8 * scale):
@@ -918,7 +931,7 @@ def judge_tie(run, cs, iline, iout, mline, mout):
     name = "+".join(c["comp"] for c in cs)
     key = "|".join(case_key(c) for c in cs)
     run.count(key, all(nontrivial(c) for c in cs))
-    run.dist("tie:" + (cs[0]["comp"] if len(cs) == 1 else "combination") + (":cell" if cs[0].get("cell") else ""))
+    run.dist("tie:" + (cs[0]["comp"] if len(cs) == 1 else "combination") + (":cell" if cs[0].get("cell") else "") + (":selection-keywords" if cs[0].get("selection") else ""))
     a = parse_impl(iout); b = parse_model(mout)
     if a is None:
         run.violation("value:%s:error" % cs[0]["comp"], "the implementation reports an error for a valid configuration (%s): %s" % (name, iout[:200]),
